@@ -463,3 +463,27 @@ def local_root_mutation():
 
 
 S2["local_root_mutation"] = local_root_mutation
+
+
+def multi_hit():
+    """two_tree with a site (position 6) carrying two mutations on different nodes, one
+    mutation-free (monomorphic) site at 5 and one at 9."""
+    return _ts(10, [(1, 0)] * 3 + [(0, 1), (0, 1.2), (0, 2)],
+               [(0, 4, 3, 0), (0, 4, 3, 1), (4, 10, 4, 0), (4, 10, 4, 2),
+                (0, 4, 5, 3), (0, 4, 5, 2), (4, 10, 5, 4), (4, 10, 5, 1)],
+               [1, 3, 6, 8], [(0, 3), (1, 2), (2, 4), (2, 1), (3, 1)])
+
+
+S2["multi_hit"] = multi_hit
+
+
+def multi_hit_mono():
+    """multi_hit plus one mutation-free site at 2 (in the other tree than the doubly-hit site):
+    as many sites as mutations, yet not one mutation per site."""
+    return _ts(10, [(1, 0)] * 3 + [(0, 1), (0, 1.2), (0, 2)],
+               [(0, 4, 3, 0), (0, 4, 3, 1), (4, 10, 4, 0), (4, 10, 4, 2),
+                (0, 4, 5, 3), (0, 4, 5, 2), (4, 10, 5, 4), (4, 10, 5, 1)],
+               [1, 2, 3, 6, 8], [(0, 3), (2, 2), (3, 4), (3, 1), (4, 1)])
+
+
+S2["multi_hit_mono"] = multi_hit_mono
